@@ -303,6 +303,9 @@ func (b *TB) And(x, y *Term) *Term {
 	if x == y {
 		return x
 	}
+	if !x.IsConst() && x.id > y.id {
+		x, y = y, x
+	}
 	return b.mk(OAnd, x.sort, []*Term{x, y}, 0, "", 0, 0)
 }
 
@@ -345,6 +348,9 @@ func (b *TB) Or(x, y *Term) *Term {
 	if x == y {
 		return x
 	}
+	if !x.IsConst() && x.id > y.id {
+		x, y = y, x
+	}
 	return b.mk(OOr, x.sort, []*Term{x, y}, 0, "", 0, 0)
 }
 
@@ -363,6 +369,9 @@ func (b *TB) Xor(x, y *Term) *Term {
 	}
 	if x == y {
 		return b.Const(0, x.W())
+	}
+	if !x.IsConst() && x.id > y.id {
+		x, y = y, x
 	}
 	return b.mk(OXor, x.sort, []*Term{x, y}, 0, "", 0, 0)
 }
@@ -387,6 +396,9 @@ func (b *TB) Neg(x *Term) *Term {
 }
 
 func (b *TB) bin(op Op, x, y *Term) *Term {
+	if (op == OAdd || op == OMul) && x.id > y.id && !y.IsConst() {
+		x, y = y, x // canonical operand order for commutative operators
+	}
 	if x.sort != y.sort {
 		panic(fmt.Sprintf("sort mismatch in %s: %v vs %v", opNames[op], x.sort, y.sort))
 	}
